@@ -110,7 +110,8 @@ impl Binder {
         let mut to_rewrite = [projection, distinct, orderby];
         plan = self.plan_window(&mut to_rewrite, plan)?;
         let [mut projection, distinct, orderby] = to_rewrite;
-        plan = self.plan_distinct(distinct, orderby, &mut projection, plan)?;
+        let mut orderby = orderby;
+        plan = self.plan_distinct(distinct, &mut orderby, &mut projection, plan)?;
         plan = self.egraph.add(Node::Order([orderby, plan]));
         plan = self.egraph.add(Node::Proj([projection, plan]));
         Ok(plan)
@@ -312,7 +313,7 @@ impl Binder {
     fn plan_distinct(
         &mut self,
         distinct: Id,
-        orderby: Id,
+        orderby: &mut Id,
         projection: &mut Id,
         plan: Id,
     ) -> Result {
@@ -321,7 +322,7 @@ impl Binder {
             return Ok(plan);
         }
         // make sure all ORDER BY items are in DISTINCT list.
-        for id in self.node(orderby).as_list() {
+        for id in self.node(*orderby).as_list() {
             // id = key or (desc key)
             let key = match self.node(*id) {
                 Node::Desc(id) => id,
@@ -343,7 +344,14 @@ impl Binder {
         }
         let aggs = self.egraph.add(Node::List(aggs.into()));
         *projection = self.egraph.add(Node::List(projs.into()));
-        Ok(self.egraph.add(Node::HashAgg([distinct, aggs, plan])))
+        let plan = self.egraph.add(Node::HashAgg([distinct, aggs, plan]));
+        // the select list and the ORDER BY keys refer to the outputs of the aggregation (keys and
+        // `first` calls), like those of a GROUP BY: without the ref wrapper column pruning sees the
+        // base columns only and drops the `first` outputs below an ORDER BY
+        let schema = self.schema(plan);
+        *projection = self.rewrite_agg_in_expr(*projection, &schema)?;
+        *orderby = self.rewrite_agg_in_expr(*orderby, &schema)?;
+        Ok(plan)
     }
 
     /// Extracts all over nodes from `projection`, `distinct` and `orderby`.
